@@ -105,7 +105,7 @@ def run_synprint(ck, vecs, rows, layouts, sub=False, shards=16):
             src = render(v["r"], L)
             jobs.append({"src": src, "langs": LANGS, "t": v["t"], "n": v["n"], "m": v["m"], "rows": rows, "sub": sub})
             meta.append((v, L, src))
-    res = vlib.run_harness(h, "synprint", jobs, shards=shards, timeout=3000)
+    res = vlib.run_harness(h, "synprint", jobs, shards=shards, timeout=7000)
     return [(m[0], m[1], m[2], r) for m, r in zip(meta, res)]
 
 
